@@ -181,6 +181,100 @@ func c09PanicStrand(w *ndWriter, wait time.Duration) {
 	e.finish(w, "panic-strand", true)
 }
 
+// the dying worker is slow between its panic handler and the decrement of workerCount (hook delay): the spawn loop must
+// still be woken AFTER the worker is uncounted, or the jobs queued behind the panicking one are stranded (variant NotifyFirst)
+func c09PanicStrandSlowExit(w *ndWriter, wait time.Duration) {
+	e := newC09(1, 1, 0, 4, 4)
+	fpgo.VerifHook = func(point string, obj interface{}) {
+		if obj == interface{}(e.pool) && point == "wp.worker.exit.pre" {
+			time.Sleep(8 * time.Millisecond)
+		}
+	}
+	defer func() { fpgo.VerifHook = nil }()
+	acc := map[int]bool{}
+	j1 := mkJob(1, "holdpanic")
+	if e.schedule(j1, 0) == "ok" {
+		acc[1] = true
+	}
+	select {
+	case <-j1.entry:
+	case <-time.After(3 * time.Second):
+	}
+	for id := 2; id <= 4; id++ {
+		if e.schedule(mkJob(id, "ok"), 0) == "ok" {
+			acc[id] = true
+		}
+	}
+	time.Sleep(5 * time.Millisecond) // the spawn loop consumes the pending token and finds its one worker alive
+	close(j1.gate)
+	e.quiesce(acc, wait)
+	e.finish(w, "panic-strand-slow-exit", true)
+}
+
+// two workers (maximum 2, standby 1); one idle timer fires and that worker is parked before its expiry check; a burst of held jobs
+// arrives; the parked worker is released and leaves.  Never more than 2 jobs may be executing (variant LeaverPolls runs a third).
+func c09ExpiryBurst(w *ndWriter, wait time.Duration) {
+	e := newC09(2, 1, 1, 4, 4)
+	e.pool.SetWorkerExpiryDuration(time.Millisecond)
+	var arrivals int32
+	arrived := make(chan struct{}, 1)
+	release := make(chan struct{})
+	fpgo.VerifHook = func(point string, obj interface{}) {
+		if obj == interface{}(e.pool) && point == "wp.worker.expired" && atomic.AddInt32(&arrivals, 1) == 1 {
+			arrived <- struct{}{}
+			<-release
+		}
+	}
+	defer func() { fpgo.VerifHook = nil }()
+	acc := map[int]bool{}
+	j1, j2 := mkJob(1, "hold"), mkJob(2, "hold")
+	for _, j := range []*c09Job{j1, j2} {
+		if e.schedule(j, 0) == "ok" {
+			acc[j.id] = true
+		}
+	}
+	ok := true
+	for _, j := range []*c09Job{j1, j2} {
+		select {
+		case <-j.entry:
+		case <-time.After(3 * time.Second):
+			ok = false
+		}
+	}
+	close(j1.gate)
+	close(j2.gate) // both workers idle now; the first idle timer to fire parks its worker
+	if ok {
+		select {
+		case <-arrived:
+		case <-time.After(3 * time.Second):
+			ok = false
+		}
+	}
+	e.pool.SetWorkerExpiryDuration(time.Hour) // the other worker stays
+	var held []*c09Job
+	if ok {
+		for id := 3; id <= 6; id++ {
+			j := mkJob(id, "hold")
+			held = append(held, j)
+			if e.schedule(j, 0) == "ok" {
+				acc[id] = true
+			}
+		}
+		time.Sleep(3 * time.Millisecond) // the other worker holds job 3; the spawn loop finds two workers counted
+	}
+	close(release) // the parked worker makes its expiry check (2 > standby) and leaves
+	time.Sleep(2 * time.Millisecond)
+	if e.schedule(mkJob(7, "ok"), 0) == "ok" { // wakes the spawn loop: it may refill to the maximum
+		acc[7] = true
+	}
+	time.Sleep(10 * time.Millisecond)
+	for _, j := range held {
+		close(j.gate)
+	}
+	e.quiesce(acc, wait)
+	e.finish(w, "expiry-burst", ok)
+}
+
 // a burst of max panicking jobs, then a trickle
 func c09PanicBurst(w *ndWriter, wait time.Duration) {
 	e := newC09(3, 3, 0, 8, 8)
@@ -383,6 +477,9 @@ func c09Main(args []string) error {
 		rng := rand.New(rand.NewSource(int64(envInt("VERIF_SEED", 1))))
 		runs := 0
 		c09PanicStrand(w, wait)
+		c09PanicStrandSlowExit(w, wait)
+		c09ExpiryBurst(w, wait)
+		runs += 2
 		c09PanicBurst(w, wait)
 		c09FullQueue(w, wait)
 		c09DoubleExpiry(w, wait)
